@@ -290,13 +290,16 @@ def _replay_c14(ctx, vh):
 MSG_VARIANTS = [
     dict(ascii=["bad value A", "bad value B", "bad value C", "bad value D"],
          cjk=["甲处错误", "乙处错误", "丙处错误", "丁处错误"],
-         mixed=["A项错误x1", "B项错误x2", "C项错误x3", "D项错误x4"]),
+         mixed=["A项错误x1", "B项错误x2", "C项错误x3", "D项错误x4"],
+         latin=["Größe fehlt A", "Größe fehlt B", "Größe fehlt C", "Größe fehlt D"]),
     dict(ascii=["must be ok (A)", "must be ok (B)", "must be ok (C)", "must be ok (D)"],
          cjk=["请输入正确的值甲", "请输入正确的值乙", "请输入正确的值丙", "请输入正确的值丁"],
-         mixed=["A值不合法!", "B值不合法!", "C值不合法!", "D值不合法!"]),
+         mixed=["A值不合法!", "B值不合法!", "C值不合法!", "D值不合法!"],
+         latin=["valeur ≤ 5 attendue (A) ✓", "valeur ≤ 5 attendue (B) ✓", "valeur ≤ 5 attendue (C) ✓", "valeur ≤ 5 attendue (D) ✓"]),
     dict(ascii=["nA", "nB", "nC", "nD"],
          cjk=["甲错", "乙错", "丙错", "丁错"],
-         mixed=["1号字段: 长度应在 2~4 之间", "2号字段: 长度应在 2~4 之间", "3号字段: 长度应在 2~4 之间", "4号字段: 长度应在 2~4 之间"]),
+         mixed=["1号字段: 长度应在 2~4 之间", "2号字段: 长度应在 2~4 之间", "3号字段: 长度应在 2~4 之间", "4号字段: 长度应在 2~4 之间"],
+         latin=["ошибка А 😀", "ошибка Б 😀", "ошибка В 😀", "ошибка Г 😀"]),
 ]
 LABELS = {"zh": "说明: ", "en": "explain: "}
 SEP = "; "
@@ -458,7 +461,7 @@ def run_c15(ctx):
                                  if _nontrivial(expect[c["id"]])}),
         rule="seq: every clause sequence of length 1..4 over {zh pure CJK, zh mixed, en, default wording, unknown rule, rule-writing error} "
              "produced by the library through struct / Var / Url (Map for length 1), with and without a trailing group clause (struct, Url); "
-             "sweep: every row of Explain!Sweep x {no message, ASCII, CJK, mixed} x carriers. Non-trivial = sequence mixing zh and en labels or "
+             "sweep: every row of Explain!Sweep x {no message, ASCII, CJK, mixed, non-ASCII without CJK} x carriers. Non-trivial = sequence mixing zh and en labels or "
              "containing an unlabelled clause, or a sweep case with a custom message. Distinct by concrete case.",
         exhaustive=True,
         sequences=stats["seq"], sweep_cases=stats["sweep"], mismatches=nbad, message_variant=ctx.seed % len(MSG_VARIANTS), **{k: v for k, v in stats.items() if k not in ("seq", "sweep")},
